@@ -9,7 +9,7 @@ from harness import refevm
 MASK = (1 << 256) - 1
 OTHER_SENDER = 0xBEEF
 ORIGIN = 0xBEEF2
-CHEAT_KINDS = {"roll": "number", "roll_arg": "number", "fee": "basefee", "chainid": "chainid", "warp_arg": "timestamp"}
+CHEAT_KINDS = {"roll": "number", "roll_if": "number", "roll_arg": "number", "fee": "basefee", "chainid": "chainid", "warp_arg": "timestamp"}
 SENDER_KINDS = {"only_sender", "not_sender", "caller_br"}
 READ_KINDS = {"xstep", "xset_if"}      # compare a slot (written by another function) with the constant "a"
 TIME_KINDS = {"after_ts", "before_ts", "store_ts", "ts_ge_slot"}
@@ -90,11 +90,12 @@ def spec_identity(comp, by_slice=False):
     """Identity of a symbolic state at a transaction boundary (Spec/StateIdSpec.v same_identity):
     balance term, code, storage terms per account (key words, value term) and the SET of path
     conditions that constrain the symbols held in the state (by_slice: the conditions at the
-    positions of halmos' slice instead)."""
+    positions of halmos' slice instead), and the block environment a handler can change (all fields
+    but the timestamp, which every invariant transaction replaces by a fresh symbol)."""
     sl = set(comp["sliced"] or ()) if by_slice else spec_constraints(comp)
     cons = frozenset(c for i, c in enumerate(comp["conds"]) if i in sl)
     stor = tuple((a, tuple((tuple(k) if isinstance(k, list) else (k,), v) for k, v in items)) for a, items in comp["storage"])
-    return (comp["balance"], tuple(map(tuple, comp["code"])), stor, cons)
+    return (comp["balance"], tuple(map(tuple, comp["code"])), stor, cons, tuple(comp["block"][:6]))
 
 
 def enc_components(comp):
@@ -113,7 +114,7 @@ def enc_components(comp):
         out += [0, 0]
     else:
         out += [1, len(comp["sliced"])] + list(comp["sliced"])
-    return out
+    return out + list(comp["block"])
 
 
 # ----------------------------------------------------------------------------- reference-side execution
@@ -524,6 +525,9 @@ def corpus():
     add("time-before", [{"name": "C0", "funcs": [{"name": "inc", "kind": "inc", "slot": 1}, {"name": "early", "kind": "before_ts", "slot": 0, "k": 100, "b": 1}]}], invo, 2)
     # known defects
     add("F9-roll", [{"name": "C0", "funcs": [{"name": "r", "kind": "roll", "k": 5}, {"name": "n", "kind": "need_number", "slot": 0, "k": 5, "b": 1}]}], invo, 2)
+    # ... the same where vm.roll is only possible after a storage change: the state it must not be merged with is not the setUp state
+    add("F9-roll-after-change", [{"name": "C0", "funcs": [{"name": "inc", "kind": "step", "slot": 1, "a": 0, "b": 1}, {"name": "r", "kind": "roll_if", "slot": 1, "a": 1, "k": 5},
+                                                           {"name": "n", "kind": "need_number", "slot": 0, "k": 5, "b": 1}]}], invo, 3)
     add("F9-fee", [{"name": "C0", "funcs": [{"name": "r", "kind": "fee", "k": 7}, {"name": "n", "kind": "need_fee", "slot": 0, "k": 7, "b": 1}]}], invo, 2)
     add("setup-merge-time", [{"name": "C0", "funcs": [{"name": "noop", "kind": "noop_payable", "payable": True}, {"name": "late", "kind": "after_ts", "slot": 0, "k": 100, "b": 1}]}], invo, 2)
     add("F12-probe", [{"name": "C0", "funcs": [inc, {"name": "bad", "kind": "assert_arg", "slot": 0, "a": 1, "k": 5}]}], {"kind": "true"}, 2)
